@@ -248,13 +248,19 @@ LEVEL_TEXT["C08"] = {
 }
 LEVEL_TEXT["C17"] = {
     "text": "For every fault schedule: a failing seek or a read error / premature EOF makes load_bytes / read_exact return an error and cache "
-            "nothing; the cache invariant survives every load_bytes whatever the reader does (insert happens only after read_exact returned "
-            "Ok with the stream's own bytes), so any later Ok answer equals the fault-free bytes; no reader operation panics. Tied to the code "
-            "by a fault-injecting reader driven by the same schedule as the model: a fault at every single I/O call index of every history "
+            "nothing; no reader operation panics. Query level, for EVERY schedule (errors, early EOF, short and interrupted reads at any "
+            "call): (1) no residue - the invariant WInv (every cached buffer is the file's bytes of its key range; contents untouched) holds "
+            "after open_stream (open_leaves_no_residue) and survives every query of every history whatever each query returned "
+            "(queries_leave_no_residue), and queries never touch the parsed headers; (2) no fabricated data - given WInv, whatever a query "
+            "answers with Ok is, as a value, exactly what the same query answers on a fault-free reader over the same contents: "
+            "<query>_fault_free for section_data (compressed included), the strtab/rel/rela/notes views, segment notes, "
+            "section_headers_with_strtab, section_header_by_name, symbol_table/dynamic_symbol_table, dynamic, symbol_version_table, plus the "
+            "read_bytes primitive; reachable_twin combines them for every state reachable from open by any history. Tied to the code by a "
+            "fault-injecting reader driven by the same schedule as the model: a fault at every single I/O call index of every history "
             "(exhaustive over positions; error and EOF kinds, transient and permanent) plus random multi-fault schedules; oracle = the "
             "fault-free run of the real code.",
-    "note": COMMON_NOTE,
-    "technique": "Lean 4 proof of an invariant under arbitrary fault schedules + exhaustive single-fault injection correspondence",
+    "note": COMMON_NOTE + " 'The faulted call itself returns Err' is proved at the load_bytes/read_exact level (head-of-schedule fault) and checked at query level by the exhaustive single-fault injection; the query-level theorems are the no-residue and no-fabrication halves.",
+    "technique": "Lean 4 proof (invariant under arbitrary fault schedules; every query's Ok answer = fault-free answer) + exhaustive single-fault injection correspondence",
 }
 
 LEVEL_TEXT["C19"] = {
